@@ -12,7 +12,7 @@ TECHNIQUE = ('runtime monitoring: three-way differential on every batch (cached 
              'cached projections must equal projections recomputed from the recorded inputs), and a logical step bound for termination')
 RULE = ('random-weight models built by the real build_net (tiny VGG-shaped front end) and loaded by the real TransformerEngineLineOCR constructor: decoder depth 1-3, heads 1-4, width 16-64, '
         'end-of-line bias varied so that lines end at different steps or hit the length cap; sequences of 3-4 batches with equal and different batch sizes (1-4) and widths (64/128/256) on one '
-        'model instance; transcribe_batch and run_ocr. non-trivial = batch with >= 2 lines decoded on a model that has decoded a different batch before; distinct = hash of (model, batches) Batches of 256 / 512 / 258 lines; a 2048-px line decoded for more than 500 steps; every third alphabet contains U+200B as an ordinary character.')
+        'model instance; transcribe_batch and run_ocr. non-trivial = batch with >= 2 lines decoded on a model that has decoded a different batch before; distinct = hash of (model, batches) Batches of 256 / 512 / 258 lines; a 2048-px line decoded for more than 500 steps; every third alphabet contains U+200B as an ordinary character. Alphabets of 40000 / 70000 characters; run_ocr on floating-point batches.')
 ASSUMPTIONS = ['float32 logits compared within 2e-4 relative to the largest |logit| of the batch (largest relative difference on the unchanged tree is reported as observed maximum)',
                'steps at which the arg-max margin is below 1e-3 make later steps of that line incomparable (decoding may legitimately branch): skipped from there on',
                'termination is decided on decoding steps: at most W//4 + 2']
@@ -105,7 +105,7 @@ def gen(rng, i, ctx):
     # every third model has an alphabet that itself contains U+200B as an ordinary character (the boundary symbol is the class AFTER the alphabet, whatever the alphabet holds)
     case['chars'] = 'ab\u200bcdef' if case['model_seed'] % 3 == 0 else 'abcdef'
     if cls == 'huge_alphabet':
-        case['chars'] = 'cjk-40000'
+        case['chars'] = 'cjk-40000' if case['model_seed'] % 2 else 'cjk-70000'
     return case
 
 
@@ -131,7 +131,10 @@ def first_ambiguous_step(l):
 
 def alphabet(case):
     c = case.get('chars', 'abcdef')
-    return ''.join(chr(0x3400 + k) for k in range(40000)) if c == 'cjk-40000' else c
+    if c.startswith('cjk-'):
+        n = int(c[4:])
+        return ''.join(chr(0x3400 + k + (0x800 if 0x3400 + k >= 0xD800 else 0)) for k in range(n))       # (skipping the surrogate block)
+    return c
 
 
 def check(case, mon, ctx):
